@@ -3,6 +3,7 @@
 -/
 import GeonumModel.Lemmas.AngleStep
 import GeonumModel.Spec.RealWitness
+import GeonumModel.Spec.RoundWitness
 
 set_option linter.unusedSectionVars false
 set_option linter.unusedVariables false
@@ -153,6 +154,114 @@ theorem geonum_cmp_total {a b : Geonum F} (ha : Fin a.angle.rem) (hb : Fin b.ang
     · rw [f3.mpr r]; exact Or.inr (Or.inr rfl)
   · rw [h]; exact Or.inr (Or.inr rfl)
 
+/-- all three float fields finite (every value the library produces inside the C01 domain) -/
+def FinG (a : Geonum F) : Prop := Fin a.angle.rem ∧ Fin a.mag
+
+/-- (S) on finite fields the sort relation is the lexicographic order on `(blade, value of remainder, value of magnitude)` -/
+theorem le_iff_float {a b : Geonum F} (ha : FinG a) (hb : FinG b) :
+    a.le b = true ↔ a.angle.blade < b.angle.blade ∨ (a.angle.blade = b.angle.blade ∧
+      (val a.angle.rem < val b.angle.rem ∨ (val a.angle.rem = val b.angle.rem ∧ val a.mag ≤ val b.mag))) := by
+  have s1 := cmp_spec (a := a.angle) (b := b.angle) ha.1 hb.1
+  obtain ⟨f1, f2, f3, f4⟩ := fcmp_spec (x := a.mag) (y := b.mag) ha.2 hb.2
+  unfold Geonum.le Geonum.cmp
+  rcases cmp_total (a := a.angle) (b := b.angle) ha.1 hb.1 with h | h | h
+  · rw [h]; simp only [bne_iff_ne, ne_eq, Option.some.injEq, reduceCtorEq, not_false_eq_true, true_iff]
+    rcases s1.1.mp h with x | ⟨e, x⟩
+    · exact Or.inl x
+    · exact Or.inr ⟨e, Or.inl x⟩
+  · rw [h]
+    obtain ⟨eb, er⟩ := s1.2.1.mp h
+    rcases lt_trichotomy (val a.mag) (val b.mag) with r | r | r
+    · rw [f1.mpr r]; simp only [Option.getD_some, bne_iff_ne, ne_eq, Option.some.injEq, reduceCtorEq, not_false_eq_true, true_iff]
+      exact Or.inr ⟨eb, Or.inr ⟨er, le_of_lt r⟩⟩
+    · rw [f2.mpr r]; simp only [Option.getD_some, bne_iff_ne, ne_eq, Option.some.injEq, reduceCtorEq, not_false_eq_true, true_iff]
+      exact Or.inr ⟨eb, Or.inr ⟨er, le_of_eq r⟩⟩
+    · rw [f3.mpr r]; simp only [Option.getD_some, bne_self_eq_false, Bool.false_eq_true, false_iff]
+      rintro (x | ⟨_, x | ⟨_, x⟩⟩)
+      · omega
+      · linarith
+      · linarith
+  · rw [h]; simp only [bne_self_eq_false, Bool.false_eq_true, false_iff]
+    rcases s1.2.2.1.mp h with x | ⟨e, x⟩
+    · rintro (y | ⟨e2, _⟩) <;> omega
+    · rintro (y | ⟨_, y | ⟨y, _⟩⟩)
+      · omega
+      · linarith
+      · linarith
+
+theorem le_trans_float {a b c : Geonum F} (ha : FinG a) (hb : FinG b) (hc : FinG c)
+    (hab : a.le b = true) (hbc : b.le c = true) : a.le c = true := by
+  rw [le_iff_float ha hb] at hab; rw [le_iff_float hb hc] at hbc; rw [le_iff_float ha hc]
+  rcases hab with x | ⟨e, x⟩ <;> rcases hbc with y | ⟨f, y⟩
+  · left; omega
+  · left; omega
+  · left; omega
+  · right; refine ⟨e.trans f, ?_⟩
+    rcases x with x | ⟨ex, mx⟩ <;> rcases y with y | ⟨ey, my⟩
+    · left; linarith
+    · left; linarith
+    · left; linarith
+    · right; exact ⟨ex.trans ey, le_trans mx my⟩
+
+theorem le_total_float {a b : Geonum F} (ha : FinG a) (hb : FinG b) : (a.le b || b.le a) = true := by
+  rw [Bool.or_eq_true, le_iff_float ha hb, le_iff_float hb ha]
+  rcases Nat.lt_trichotomy a.angle.blade b.angle.blade with h | h | h
+  · exact Or.inl (Or.inl h)
+  · rcases lt_trichotomy (val a.angle.rem) (val b.angle.rem) with r | r | r
+    · exact Or.inl (Or.inr ⟨h, Or.inl r⟩)
+    · rcases le_total (val a.mag) (val b.mag) with m | m
+      · exact Or.inl (Or.inr ⟨h, Or.inr ⟨r, m⟩⟩)
+      · exact Or.inr (Or.inr ⟨h.symm, Or.inr ⟨r.symm, m⟩⟩)
+    · exact Or.inr (Or.inr ⟨h.symm, Or.inl r⟩)
+  · exact Or.inr (Or.inl h)
+
+open Classical in
+/-- the sort relation extended to a total preorder on *all* values (non-finite ones last, all tied) — only a device for applying the
+    library's merge-sort theorem, which wants a globally lawful relation; on finite values it *is* `Geonum.le` -/
+noncomputable def leExt (a b : Geonum F) : Bool :=
+  if FinG a then (if FinG b then a.le b else true) else (if FinG b then false else true)
+
+theorem leExt_eq {a b : Geonum F} (ha : FinG a) (hb : FinG b) : leExt a b = a.le b := by
+  unfold leExt; rw [if_pos ha, if_pos hb]
+
+theorem leExt_trans (a b c : Geonum F) (hab : leExt a b = true) (hbc : leExt b c = true) : leExt a c = true := by
+  unfold leExt at *
+  by_cases ha : FinG a <;> by_cases hb : FinG b <;> by_cases hc : FinG c <;>
+    simp only [ha, hb, hc, if_true, if_false] at hab hbc ⊢ <;> try trivial
+  exact le_trans_float ha hb hc hab hbc
+
+theorem leExt_total (a b : Geonum F) : (leExt a b || leExt b a) = true := by
+  unfold leExt
+  by_cases ha : FinG a <;> by_cases hb : FinG b <;> simp only [ha, hb, if_true, if_false] <;> try simp
+  have := le_total_float ha hb
+  simpa using this
+
+/-- (S) **sorting in rounded arithmetic**: for every list of numbers with finite fields, `sort` never panics and returns a permutation
+    of its input in non-decreasing order (`Vec::sort` modelled by the stable `List.mergeSort` on the model `cmp`; `cmp_refl`,
+    `le_trans_float`, `le_total_float` are exactly the contract std's sort requires of `Ord`, now for floats) -/
+theorem sort_float (l : List (Geonum F)) (hl : ∀ a ∈ l, FinG a) :
+    ∃ s, Geonum.sort l = some s ∧ s.Perm l ∧ s.Pairwise (fun a b => a.cmp b ≠ some .gt) := by
+  refine ⟨l.mergeSort Geonum.le, ?_, List.mergeSort_perm l _, ?_⟩
+  · unfold Geonum.sort
+    have : l.all (fun a => (a.angle.cmp a.angle).isSome) = true := by
+      rw [List.all_eq_true]; intro a ha
+      rw [cmp_refl (a := a.angle) (hl a ha).1]; rfl
+    rw [if_pos this]
+  · -- on the members of `l` the relation coincides with the globally lawful extension
+    have hcongr : l.mergeSort Geonum.le = l.mergeSort leExt := by
+      have := List.map_mergeSort (r := Geonum.le) (s := leExt (F := F)) (f := id) (l := l)
+        (fun a ha b hb => (leExt_eq (hl a ha) (hl b hb)).symm)
+      simpa using this
+    have hp := List.pairwise_mergeSort (le := leExt (F := F)) leExt_trans leExt_total l
+    rw [← hcongr] at hp
+    have hmem : ∀ a ∈ l.mergeSort Geonum.le, FinG a := fun a ha => hl a ((List.mergeSort_perm l _).mem_iff.mp ha)
+    have hp' := List.Pairwise.and_mem.mp hp
+    refine hp'.imp ?_
+    rintro a b ⟨ha, hb, h⟩
+    rw [leExt_eq (hmem a ha) (hmem b hb)] at h
+    unfold Geonum.le at h
+    simpa using h
+
 end S
 
 /-! ### E-tier: over exact reals every value is finite, so the sort theorem can be stated for all lists -/
@@ -255,5 +364,16 @@ theorem sort_real (l : List (Geonum ℝ)) :
 end E
 
 example {F : Type} [FloatSpec F] : Fin (⟨zero, 3⟩ : Angle F).rem := fin_zero
+
+
+/-! ### R — on the arithmetic that really rounds (`R64`) -/
+section R
+
+/-- (R) every list of binary64 geometric numbers sorts: no panic, a permutation, non-decreasing under `cmp` -/
+theorem sort_rounded (l : List (Geonum R64)) :
+    ∃ s, Geonum.sort l = some s ∧ s.Perm l ∧ s.Pairwise (fun a b => a.cmp b ≠ some .gt) :=
+  sort_float (F := R64) l (fun _ _ => ⟨trivial, trivial⟩)
+
+end R
 
 end GeonumModel.C16
